@@ -30,5 +30,11 @@ CHECKS = {
   "text": "The real generator methods are symbolically executed with symbolic Doppler, sampling interval, phases, head start and request sizes: exactly n samples of the configured shape at times (pos+i)*Ts, new time pos+n, skip advances by m (inductive step, any history length), every sample returned after every request sequence of length <=3 equals the Jakes sum-of-sinusoids at its position, phases change only on a shape change, |h|<=sqrt(L) by lemma L-UNIT (z3 for L<=2, Lean 4+Mathlib for all L in the thorough tier), Fd=0 static. Binary64 accumulation over positions up to 1e10 is a bounded native check with a stated phase tolerance.",
   "note": "Ideal reals; cos/sin uninterpreted; np.arange contract; history length bounded at 3 for the representation-independent form (the inductive step covers any length for the current representation); L-UNIT assumed for L>2 in the quick tier.",
  },
+ "C06": {
+  "category": "proof",
+  "technique": "contract-based deductive verification: abstract view of a Result, update/merge contracts from arbitrary symbolic states, monoid laws (singleton, associativity, unit) + direct chunking enumeration with symbolic observations, operand frame conditions; bounded native check for grid unions",
+  "text": "Result.update and Result.merge are symbolically executed from arbitrary (havocked) states of all four result types with and without value accumulation: update adds exactly one observation to the view, merge adds the views and leaves the operand untouched, update equals merging a singleton, merge is associative with the empty result as unit - hence every chunking and association yields the same value/total/count/mean/variance (MISC: last observation wins). All chunkings of sequences of length <=4 are additionally executed directly with symbolic observations. merge_all_results is proved per name with the operands never changed by later merges or updates. combine_simulation_results/parameters over overlapping grids is a bounded native check.",
+  "note": "Ideal reals for float statistics; lemma L-FOLD (monoid homomorphism => chunking independence) is the textbook induction over the discharged laws, not machine-checked; combine_* only bounded.",
+ },
 }
 NOT_APPLICABLE = {}
